@@ -1,5 +1,5 @@
 CFG = {
-    "lean_targets": ["Norad.Props.C12"],
+    "lean_targets": ["Norad.Props.C12", "Norad.Props.C12Converse"],
     "audit": "Norad/Audit/C12.lean",
     "extract": "glif_parser",
     "rule": ("glif documents composed from legal building blocks (every element kind, both format versions, random element and "
